@@ -130,7 +130,7 @@ type runner struct {
 	n        int
 	executed map[string]int
 	failed   map[string]bool
-	allowErr bool // the runner itself may fail (an error, not an exit status)
+	allowErr bool                // the runner itself may fail (an error, not an exit status)
 	writes   map[string][]string // task -> files its commands may rewrite (dependencies of later tasks)
 	murky    map[string]bool     // tasks that rewrote a dependency of their own: no claim about them (ambiguous "inputs it completed on")
 }
